@@ -1,0 +1,219 @@
+// Copyright 2025 CloudWeGo Authors
+//
+// Licensed under the Apache License, Version 2.0 (the "License");
+// you may not use this file except in compliance with the License.
+// You may obtain a copy of the License at
+//
+//    http://www.apache.org/licenses/LICENSE-2.0
+//
+// Unless required by applicable law or agreed to in writing, software
+// distributed under the License is distributed on an "AS IS" BASIS,
+// WITHOUT WARRANTIES OR CONDITIONS OF ANY KIND, either express or implied.
+// See the License for the specific language governing permissions and
+// limitations under the License.
+
+package netpoll
+
+// Names of the verification hook points (see verif_hooks_on.go / verif_hooks_off.go).
+// The points only exist to let an external monitor observe or delay the code between
+// two steps of a hand-off protocol; without the `verif` build tag they compile to nothing.
+const (
+	vpNone = iota
+	vpOnPrepareEnter
+	vpOnPrepareBeforeRegister
+	vpOnDisconnectEnter
+	vpOnDisconnectLocked
+	vpOnDisconnectDeferred
+	vpOnRequestDeferred
+	vpOnRequestEnter
+	vpPanicDeferEnter
+	vpPanicDeferAfterUnlock
+	vpTaskStart
+	vpAfterOnConnect
+	vpOnConnectBeforeUnlock
+	vpProcessStart
+	vpProcessBeforeCloseCb
+	vpProcessBeforeUnlock
+	vpProcessBetweenChecks
+	vpProcessExit
+	vpCloseCbEnter
+	vpCloseCbLockFail
+	vpCloseCbLocked
+	vpCloseCbBeforeRun
+	vpCloseCbDone
+	vpOnHupEnter
+	vpOnHupAfterCloseBy
+	vpOnHupAfterTrigger
+	vpOnHupAfterDisconnect
+	vpOnCloseEnter
+	vpOnCloseWon
+	vpOnCloseLost
+	vpCloseBuffer
+	vpInputAckAfterBook
+	vpInputAckBeforeTrigger
+	vpOutputs
+	vpOutputAck
+	vpRw2rBeforeControl
+	vpRw2rBeforeTrigger
+	vpReleaseTokenTaken
+	vpReleaseBeforeDone
+	vpFinalizerEnter
+	vpFinalizerAfterStop
+	vpFinalizerAfterFree
+	vpFinalizerAfterClose
+	vpWaitReadPublished
+	vpWaitReadTOBeforeSelect
+	vpWaitReadTOTimer
+	vpWaitReadTOTrigger
+	vpWaitReadTORet
+	vpFlushAfterSend
+	vpFlushBeforeR2RW
+	vpFlushAfterR2RW
+	vpWaitFlushBeforeSelect
+	vpWaitFlushTrigger
+	vpWaitFlushTimer
+	vpOpAlloc
+	vpOpFreeable
+	vpOpFreeSplice
+	vpPollBatchBegin
+	vpPollBatchEnd
+	vpPollSkip
+	vpPollEvent
+	vpPollWake
+	vpPollExit
+	vpPollControl
+	vpPollDispatchDone
+	vpAppendHup
+	vpHupsRun
+	vpAcceptAfterInit
+	vpAcceptBeforeStore
+	vpAcceptAfterStore
+	vpServerCloseIdle
+	vpEmfileDetach
+	vpEmfileReregister
+	vpEmfileRetry
+	vpDialBeforeWait
+	vpDialCtxDone
+	vpDialOnWrite
+	vpDialOnHup
+	vpDialBeforeFree
+	vpPickSlow
+	vpPickRunDone
+	vpPollOpened
+	vpPollClosing
+	vpOnConnectAfterUnlock
+	vpProcessAfterUnlock
+	vpWaitReadBeforeBlock
+	vpWaitReadWoke
+	vpWaitFlushBeforeBlock
+	vpCount
+)
+
+// descriptor kinds of verifFD (positive: adopted, negative: about to be closed)
+const (
+	vfdConn         = 1
+	vfdListener     = 2
+	vfdListenerFile = 3
+	vfdEpoll        = 4
+	vfdEventfd      = 5
+	vfdDialSocket   = 6
+)
+
+// verifPointNames maps a point id to its name (used in traces).
+var verifPointNames = [...]string{
+	vpNone:                    "none",
+	vpOnPrepareEnter:          "OnPrepareEnter",
+	vpOnPrepareBeforeRegister: "OnPrepareBeforeRegister",
+	vpOnDisconnectEnter:       "OnDisconnectEnter",
+	vpOnDisconnectLocked:      "OnDisconnectLocked",
+	vpOnDisconnectDeferred:    "OnDisconnectDeferred",
+	vpOnRequestDeferred:       "OnRequestDeferred",
+	vpOnRequestEnter:          "OnRequestEnter",
+	vpPanicDeferEnter:         "PanicDeferEnter",
+	vpPanicDeferAfterUnlock:   "PanicDeferAfterUnlock",
+	vpTaskStart:               "TaskStart",
+	vpAfterOnConnect:          "AfterOnConnect",
+	vpOnConnectBeforeUnlock:   "OnConnectBeforeUnlock",
+	vpProcessStart:            "ProcessStart",
+	vpProcessBeforeCloseCb:    "ProcessBeforeCloseCb",
+	vpProcessBeforeUnlock:     "ProcessBeforeUnlock",
+	vpProcessBetweenChecks:    "ProcessBetweenChecks",
+	vpProcessExit:             "ProcessExit",
+	vpCloseCbEnter:            "CloseCbEnter",
+	vpCloseCbLockFail:         "CloseCbLockFail",
+	vpCloseCbLocked:           "CloseCbLocked",
+	vpCloseCbBeforeRun:        "CloseCbBeforeRun",
+	vpCloseCbDone:             "CloseCbDone",
+	vpOnHupEnter:              "OnHupEnter",
+	vpOnHupAfterCloseBy:       "OnHupAfterCloseBy",
+	vpOnHupAfterTrigger:       "OnHupAfterTrigger",
+	vpOnHupAfterDisconnect:    "OnHupAfterDisconnect",
+	vpOnCloseEnter:            "OnCloseEnter",
+	vpOnCloseWon:              "OnCloseWon",
+	vpOnCloseLost:             "OnCloseLost",
+	vpCloseBuffer:             "CloseBuffer",
+	vpInputAckAfterBook:       "InputAckAfterBook",
+	vpInputAckBeforeTrigger:   "InputAckBeforeTrigger",
+	vpOutputs:                 "Outputs",
+	vpOutputAck:               "OutputAck",
+	vpRw2rBeforeControl:       "Rw2rBeforeControl",
+	vpRw2rBeforeTrigger:       "Rw2rBeforeTrigger",
+	vpReleaseTokenTaken:       "ReleaseTokenTaken",
+	vpReleaseBeforeDone:       "ReleaseBeforeDone",
+	vpFinalizerEnter:          "FinalizerEnter",
+	vpFinalizerAfterStop:      "FinalizerAfterStop",
+	vpFinalizerAfterFree:      "FinalizerAfterFree",
+	vpFinalizerAfterClose:     "FinalizerAfterClose",
+	vpWaitReadPublished:       "WaitReadPublished",
+	vpWaitReadTOBeforeSelect:  "WaitReadTOBeforeSelect",
+	vpWaitReadTOTimer:         "WaitReadTOTimer",
+	vpWaitReadTOTrigger:       "WaitReadTOTrigger",
+	vpWaitReadTORet:           "WaitReadTORet",
+	vpFlushAfterSend:          "FlushAfterSend",
+	vpFlushBeforeR2RW:         "FlushBeforeR2RW",
+	vpFlushAfterR2RW:          "FlushAfterR2RW",
+	vpWaitFlushBeforeSelect:   "WaitFlushBeforeSelect",
+	vpWaitFlushTrigger:        "WaitFlushTrigger",
+	vpWaitFlushTimer:          "WaitFlushTimer",
+	vpOpAlloc:                 "OpAlloc",
+	vpOpFreeable:              "OpFreeable",
+	vpOpFreeSplice:            "OpFreeSplice",
+	vpPollBatchBegin:          "PollBatchBegin",
+	vpPollBatchEnd:            "PollBatchEnd",
+	vpPollSkip:                "PollSkip",
+	vpPollEvent:               "PollEvent",
+	vpPollWake:                "PollWake",
+	vpPollExit:                "PollExit",
+	vpPollControl:             "PollControl",
+	vpPollDispatchDone:        "PollDispatchDone",
+	vpAppendHup:               "AppendHup",
+	vpHupsRun:                 "HupsRun",
+	vpAcceptAfterInit:         "AcceptAfterInit",
+	vpAcceptBeforeStore:       "AcceptBeforeStore",
+	vpAcceptAfterStore:        "AcceptAfterStore",
+	vpServerCloseIdle:         "ServerCloseIdle",
+	vpEmfileDetach:            "EmfileDetach",
+	vpEmfileReregister:        "EmfileReregister",
+	vpEmfileRetry:             "EmfileRetry",
+	vpDialBeforeWait:          "DialBeforeWait",
+	vpDialCtxDone:             "DialCtxDone",
+	vpDialOnWrite:             "DialOnWrite",
+	vpDialOnHup:               "DialOnHup",
+	vpDialBeforeFree:          "DialBeforeFree",
+	vpPickSlow:                "PickSlow",
+	vpPickRunDone:             "PickRunDone",
+	vpPollOpened:              "PollOpened",
+	vpPollClosing:             "PollClosing",
+	vpOnConnectAfterUnlock:    "OnConnectAfterUnlock",
+	vpProcessAfterUnlock:      "ProcessAfterUnlock",
+	vpWaitReadBeforeBlock:     "WaitReadBeforeBlock",
+	vpWaitReadWoke:            "WaitReadWoke",
+	vpWaitFlushBeforeBlock:    "WaitFlushBeforeBlock",
+}
+
+func verifB2I(b bool) int {
+	if b {
+		return 1
+	}
+	return 0
+}
